@@ -23,6 +23,7 @@ mod c04;
 mod c08;
 mod total;
 mod c02msg;
+mod c03;
 
 use std::collections::HashMap;
 
@@ -78,6 +79,7 @@ fn main() {
         "c08" => c08::run(&o),
         "total" => total::run(&o),
         "c02msg" => c02msg::run(&o),
+        "c03" => c03::run(&o),
         other => {
             eprintln!("unknown stream {other}");
             std::process::exit(2);
